@@ -12,6 +12,10 @@
 3. TLC (C15_Mon) checks the event log: every discovered outlink reaches the queue with the same text, via and
    hops (HQ: path is hops x 'L'); what the queue hands out comes back as a seed with that text, via and hops;
    every finished seed is acknowledged by id, and only after it finished; no value waits twice in the local queue.
+4. TLC (TraceC15) validates the add and the delete path of every HQ run against HQ.tla itself: each attempt the
+   fake HQ saw must carry a batch the model can have in its sender (items produced before, each once, at most
+   batch-size, the same batch again after a failure); receiver / flush / dispatch steps are inferred.  A
+   rejection is reported as SPEC-DRIFT.
 """
 import os
 import subprocess
@@ -54,7 +58,7 @@ def run(ctx):
                 print(err[-2000:])
                 ctx.log("pipeline process exited %d" % p.returncode)
             traces.append(("%s-h%db%df%dt%d" % c, t))
-    nout = nfault = nfin = 0
+    nout = nfault = nfin = nimpl = 0
     kinds = set()
     for name, t in traces:
         events = vf.read_ndjson(t)
@@ -73,11 +77,17 @@ def run(ctx):
             why = v["why"]
             key = why.split(" u=")[0].split(" id=")[0].split(" value=")[0]
             ctx.report("%s [%s]" % (why, name), replay_src=t, tag=name, key=key)
+        if any(e["ev"] == "c15.mode" and e["mode"] == "hq" for e in events):
+            for path in ("add", "delete"):
+                impl = ctx.validate("TraceC15", "C15_trace_%s.cfg" % path, t, name="impl-%s-%s" % (path, name))
+                nimpl += 1
+                if impl["hwm"] < impl["total"] or "ConservedBorn is violated" in impl["out"]:
+                    ctx.note_drift("%s path of run %s: event %d (%s) is not a step of HQ.tla" % (path, name, impl["hwm"] + 1, events[min(impl["hwm"], len(events) - 1)]["ev"]), t)
     if not ctx.replay and (nout < 10 or nfin < 10 or nfault < 4):
         raise vf.Inconclusive("the runs exercised too little: %d outlinks, %d finishes, %d faults" % (nout, nfin, nfault))
     ctx.cov.update({
         "states": r.distinct, "transitions": r.generated, "exhaustive": True,
-        "traces_validated_against_impl": len(traces),
+        "traces_validated_against_impl": len(traces) + nimpl,
         "evaluations": nout + nfin, "distinct_nontrivial": len(kinds),
         "rule": "evaluations = outlinks delivered + finishes acknowledged; distinct = (endpoint, fault kind) pairs injected",
         "samples": sorted(kinds)[:12],
